@@ -22,7 +22,9 @@ def nontrivial(req, obs):
 
 PROP = {
     "id": "C12",
-    "lean_targets": ["WmModel.Props.C12", "WmModel.Props.C12Tie"],
+    "lean_targets": ["WmModel.Props.C12", "WmModel.Props.C12Tie", "WmModel.Props.C12Router", "WmModel.Props.C02Tie"],
+    # the composition with the Router is stated on the handleMessage model: its body is re-extracted and its tie re-proved here too
+    "extract_also": ["C02"],
     "audit_module": "Audit.C12",
     "theorems": [
         "Wm.Retry.never_out_of_fuel", "Wm.Retry.attempts_follow_script",
@@ -37,9 +39,11 @@ PROP = {
         "Wm.Retry.gives_up_on_ctx_end", "Wm.Retry.gives_up_keeps_error",
         "Wm.Retry.gives_up_on_elapsed", "Wm.Retry.gives_up_on_elapsed_observable",
         "Wm.Retry.old_retry_after_stop_witness",
+        # Retry inside a Router: composition with the C02/C03 models (Props/C12Router.lean)
+        "Wm.Retry.acked_under_retry_iff", "Wm.Retry.published_under_retry", "Wm.Retry.nacked_when_all_attempts_fail",
     ],
     # over the closure body regenerated from message/router/middleware/retry.go on every run
-    "tie_theorems": ["Wm.GoRetry.extracted_retry_eq_model", "Wm.GoRetry.extracted_ctx_deadline"],
+    "tie_theorems": ["Wm.GoRetry.extracted_retry_eq_model", "Wm.GoRetry.extracted_ctx_deadline", "Wm.GoHandle.handle_skeleton_eq_model", "Wm.GoHandle.publish_skeleton_eq_model"],
     "harness": "c12",
     "race": True,
     "driver": "drv_c12",
